@@ -21,6 +21,11 @@
   C14-UNDEF   in ``RenderContext.get*``/``_resolve`` every lookup failure of the classes
               ``get_item`` can raise (KeyError, TypeError, IndexError) is converted into
               ``env.undefined(...)`` (or the caller's default).
+  C14-ITEM    in ``get_item`` / ``get_item_async``: element 0 is returned only for ``first`` and
+              element -1 only for ``last``, both only where the string guard
+              (``isinstance(obj, str) and not env.string_first_and_last``) is ruled out by the
+              path conditions; ``len(obj)`` only for ``size``; the plain subscription only where
+              the ``string_sequences`` guard is ruled out.
 Not decided: path resolution results for particular data (value level).
 """
 
@@ -39,7 +44,7 @@ CTX = "liquid.context.RenderContext"
 
 def run(repo: Repo) -> Result:
     res = Result(PID)
-    res.rules = ["C14-CHAIN", "C14-MAP", "C14-PAIR", "C14-WITH", "C14-BLOCK", "C14-INCLUDE", "C14-UNDEF"]
+    res.rules = ["C14-CHAIN", "C14-MAP", "C14-PAIR", "C14-WITH", "C14-BLOCK", "C14-INCLUDE", "C14-UNDEF", "C14-ITEM"]
     res.explanation = "scope-chain order tables + push/pop pairing + who-may rules for binding constructs"
     res.assumptions = ["path resolution for particular data is value-level and not decided"]
 
@@ -284,6 +289,141 @@ def run(repo: Repo) -> Result:
             if bad_handler:
                 res.add("C14-UNDEF", f.qual, f"handler:{text(s)[:30]}", f"{f.qual}: a lookup-failure handler must return env.undefined(...) or the caller's default", f.file, s.lineno)
     res.stats.update(extend_loop_sites=n_with)
+    # ---- C14-ITEM: the special properties size / first / last ---------------------------------------
+    # Path conditions (sa/guards.py) of every exit of the two item getters:
+    #   * ``obj[0]`` is returned only for the key "first" and ``obj[-1]`` only for "last", and — a
+    #     str is a Sequence — only where the string guard is known not to apply:
+    #     not (isinstance(obj, str) and not env.string_first_and_last);
+    #   * ``len(obj)`` is returned only for the key "size";
+    #   * the plain subscription ``obj[key]`` at the end is reached only where
+    #     not (not env.string_sequences and isinstance(key, int) and isinstance(obj, str)).
+    from ..guards import canon as _canon, conditions as _conditions
+
+    def _atoms(e: ast.AST) -> set[str]:
+        return {_canon(v) for v in (e.values if isinstance(e, ast.BoolOp) and isinstance(e.op, ast.And) else [e])}
+
+    def _neg_text(a: str) -> str:
+        return a[4:] if a.startswith("not ") and not a.startswith("not (") else f"not {a}"
+
+    def refuted(cs, atoms: set[str]) -> bool:
+        """the path conditions imply that the conjunction of ``atoms`` is false"""
+        have = {_canon(c) for c in cs}
+        if any(_neg_text(a) in have or (a.startswith("not ") and a[4:] in have) for a in atoms):
+            return True
+        for c in cs:
+            if isinstance(c, ast.UnaryOp) and isinstance(c.op, ast.Not) and _atoms(c.operand) <= atoms:
+                return True
+            if isinstance(c, ast.BoolOp) and isinstance(c.op, ast.Or) and {_neg_text(_canon(v)) for v in c.values} <= atoms:
+                return True
+        return False
+
+    from ..engines.exc import _int_const
+    from ..guards import inner_conditions as _inner
+
+    def _str_consts(e, mod):
+        if isinstance(e, ast.Name) and e.id in mod.assigns:
+            e = mod.assigns[e.id]
+        if isinstance(e, (ast.Tuple, ast.List, ast.Set)) and all(isinstance(x, ast.Constant) and isinstance(x.value, str) for x in e.elts):
+            return {x.value for x in e.elts}
+        return None
+
+    def key_values(cs, keyvars: dict):
+        """the strings the key can still be under the path conditions (None: unknown).
+        keyvars: variable -> finite domain it ranges over (or None)."""
+        poss = None
+        for v, dom in keyvars.items():
+            if dom is not None:
+                poss = set(dom) if poss is None else poss & dom
+        for c in cs:
+            if isinstance(c, ast.Compare) and len(c.ops) == 1 and isinstance(c.left, ast.Name) and c.left.id in keyvars and isinstance(c.comparators[0], ast.Constant) and isinstance(c.comparators[0].value, str):
+                val = c.comparators[0].value
+                if isinstance(c.ops[0], ast.Eq):
+                    poss = {val} if poss is None else poss & {val}
+                elif isinstance(c.ops[0], ast.NotEq) and poss is not None:
+                    poss = poss - {val}
+            elif isinstance(c, ast.Compare) and len(c.ops) == 1 and isinstance(c.ops[0], ast.In) and isinstance(c.left, ast.Name) and c.left.id in keyvars:
+                d = _str_consts(c.comparators[0], repo.module("liquid.context"))
+                if d is not None:
+                    poss = set(d) if poss is None else poss & d
+        return poss
+
+    def scan(fn_node, qual, file_, objv, keyvars, base_cs, seen, plain_ok):
+        """apply the exit rules to one function body; returns helper calls to follow"""
+        follow = []
+        str_guard = {f"isinstance({objv}, str)", "not self.env.string_first_and_last"}
+        # a loop variable compared for equality with the key ranges over the loop's constants
+        for n in walk_no_nested(fn_node):
+            if isinstance(n, (ast.For, ast.AsyncFor)) and isinstance(n.target, ast.Name):
+                d = _str_consts(n.iter, repo.module("liquid.context"))
+                if d is not None:
+                    for c in ast.walk(n):
+                        if isinstance(c, ast.Compare) and len(c.ops) == 1 and isinstance(c.ops[0], ast.Eq) and {text(c.left), text(c.comparators[0])} == {n.target.id, next(iter(keyvars))}:
+                            keyvars = {**keyvars, n.target.id: d}
+        for st, cs0 in _conditions(fn_node):
+            if isinstance(st, (ast.If, ast.For, ast.AsyncFor, ast.While, ast.With, ast.AsyncWith, ast.Try)):
+                continue
+            inner = _inner(st)
+            for v in ast.walk(st):
+                cs = list(base_cs) + list(cs0) + inner.get(id(v), [])
+                have = {_canon(c) for c in cs}
+                if isinstance(st, ast.Return) and isinstance(v, ast.Subscript) and isinstance(v.ctx, ast.Load) and is_name(v.value, objv):
+                    k = _int_const(v.slice)
+                    if k in (0, -1):
+                        want_key = "first" if k == 0 else "last"
+                        seen[want_key] += 1
+                        res.ob(f"item:{qual}:{want_key}", 2)
+                        poss = key_values(cs, keyvars)
+                        if poss != {want_key}:
+                            res.add("C14-ITEM", qual, f"index:{k}:{want_key}", f"{qual} returns `{text(v)}` where the key is not known to be '{want_key}' (it can be {sorted(poss) if poss is not None else 'anything'}): first is element 0 and last is element -1", file_, st.lineno)
+                        if not refuted(cs, str_guard):
+                            res.add("C14-ITEM", qual, f"string-{want_key}", f"{qual} returns `{text(v)}` for .{want_key} without `isinstance({objv}, str) and not self.env.string_first_and_last` having been ruled out (a str is a Sequence): `{{{{ s.{want_key} }}}}` of a string yields a character instead of the undefined value when string_first_and_last is off", file_, st.lineno)
+                    elif plain_ok and isinstance(v.slice, ast.Name) and v.slice.id == next(iter(keyvars)) and v is unwrap_await(st.value):
+                        seen["plain"] += 1
+                        res.ob(f"item:{qual}:plain")
+                        if not refuted(cs, plain_ok):
+                            res.add("C14-ITEM", qual, "string-index", f"{qual} subscripts `{text(v)}` without the string_sequences guard having been ruled out", file_, st.lineno)
+                elif isinstance(st, ast.Return) and isinstance(v, ast.Call) and is_name(v.func, "len") and v.args and is_name(v.args[0], objv):
+                    seen["size"] += 1
+                    res.ob(f"item:{qual}:size")
+                    poss = key_values(cs, keyvars)
+                    if poss != {"size"}:
+                        res.add("C14-ITEM", qual, "len-not-size", f"{qual} returns len({objv}) where the key is not known to be 'size'", file_, st.lineno)
+                elif isinstance(v, ast.Call) and len(v.args) == 2 and is_name(v.args[0], objv) and isinstance(v.args[1], ast.Name) and v.args[1].id in keyvars:
+                    if isinstance(v.func, ast.Name) and isinstance(st, ast.Return) and v is unwrap_await(st.value) and v.args[1].id == next(iter(keyvars)) and plain_ok:
+                        # the async twin's local getter: `await _get_item(obj, key)`
+                        seen["plain"] += 1
+                        res.ob(f"item:{qual}:plain")
+                        if not refuted(cs, plain_ok):
+                            res.add("C14-ITEM", qual, "string-index", f"{qual} looks up `{text(v)}` without the string_sequences guard having been ruled out", file_, st.lineno)
+                    elif isinstance(v.func, ast.Attribute) and is_name(v.func.value, "self"):
+                        follow.append((v.func.attr, v.args[1].id, key_values(cs, keyvars), cs))
+        return follow
+
+    for m in ("get_item", "get_item_async"):
+        f = repo.own_method(CTX, m)
+        ps = [p for p in f.params() if p != "self"]
+        if len(ps) != 2:
+            raise AnchorMissing(f"{f.qual} no longer takes (obj, key)")
+        p_obj, p_key = ps
+        seq_guard = {"not self.env.string_sequences", f"isinstance({p_key}, int)", f"isinstance({p_obj}, str)"}
+        seen = {"first": 0, "last": 0, "size": 0, "plain": 0}
+        follow = scan(f.node, f.qual, f.file, p_obj, {p_key: None}, [], seen, seq_guard)
+        done = set()
+        for hname, _kv, dom, _cs in follow:
+            h = repo.cls(CTX).methods.get(hname)
+            if h is None or hname in done:
+                continue
+            done.add(hname)
+            hps = [p for p in h.params() if p != "self"]
+            if len(hps) != 2:
+                continue
+            # the helper is reached with the key among `dom` (union over its call sites)
+            doms = [d for n_, _k, d, _c in follow if n_ == hname]
+            dom_u = None if any(d is None for d in doms) else set().union(*doms)
+            scan(h.node, f"{f.qual}>{h.name}", h.file, hps[0], {hps[1]: dom_u}, [], seen, None)
+        miss = [k for k, n_ in seen.items() if not n_]
+        if miss:
+            raise AnchorMissing(f"{f.qual}: no exit found for {miss} (size/first/last/plain expected); re-derive C14-ITEM")
     return res
 
 
